@@ -5,6 +5,7 @@ package main
 // values.  Enumeration (deterministic, by index):
 //
 //	block A  arity 0 and 1, all callables (all receiver variants) x full pool (incl. the "huge" values)
+//	block E  (quick) arity 2 all callables and arity 3 primary callables over the boundary sub-pool (12 values)
 //	block B  (thorough) arity 2 all callables x pool^2, arity 3 primary callables x pool^3  (pool without the huge-iteration values)
 //	block S  seeded sample: arity 2..4 positional + 0..2 keyword arguments, full pool
 import (
@@ -297,6 +298,7 @@ type callMode struct {
 	nA, nB2   int64
 	nB3, nS   int64
 	nE        int64 // arity 2 over the boundary sub-pool (edge), all callables
+	nE3       int64 // arity 3 over the boundary sub-pool, primary callables
 	edge      []int
 	fns       starlark.StringDict
 	single    *callCase
@@ -326,8 +328,9 @@ func newCallMode(o *opts) *callMode {
 	C := int64(len(m.cs))
 	m.nA = C * (1 + P)
 	m.nE = C * int64(len(m.edge)*len(m.edge))
+	m.nE3 = int64(len(m.prim)) * int64(len(m.edge)*len(m.edge)*len(m.edge))
 	if o.tier == "thorough" {
-		m.nE = 0 // covered by the full arity-2 product
+		m.nE, m.nE3 = 0, 0 // covered by the full products
 		m.nB2 = C * Q * Q
 		m.nB3 = int64(len(m.prim)) * Q * Q * Q
 		m.nS = 80000
@@ -345,12 +348,12 @@ func newCallMode(o *opts) *callMode {
 	m.fns = fns
 	if o.single != "" {
 		m.single = m.parseSingle(o.single)
-		m.nA, m.nB2, m.nB3, m.nS, m.nE = 1, 0, 0, 0, 0
+		m.nA, m.nB2, m.nB3, m.nS, m.nE, m.nE3 = 1, 0, 0, 0, 0, 0
 	}
 	return m
 }
 
-func (m *callMode) Count() int64 { return m.nA + m.nE + m.nB2 + m.nB3 + m.nS }
+func (m *callMode) Count() int64 { return m.nA + m.nE + m.nE3 + m.nB2 + m.nB3 + m.nS }
 
 func (m *callMode) decode(i int64) callCase {
 	if m.single != nil {
@@ -374,6 +377,13 @@ func (m *callMode) decode(i int64) callCase {
 		return callCase{callable: int(c), args: []int{m.edge[r/E], m.edge[r%E]}}
 	}
 	i -= m.nE
+	if i < m.nE3 {
+		E := int64(len(m.edge))
+		c := i / (E * E * E)
+		r := i % (E * E * E)
+		return callCase{callable: m.prim[c], args: []int{m.edge[r/(E*E)], m.edge[(r/E)%E], m.edge[r%E]}}
+	}
+	i -= m.nE3
 	if i < m.nB2 {
 		c := i / (Q * Q)
 		r := i % (Q * Q)
